@@ -189,6 +189,10 @@ func runC06(c *fw.Ctx) {
 		})
 	}
 
+	// ---- one index slice object used for two calls on tensors of different extents ----
+	for i := 0; i < c.Pick(2000, 20000); i++ {
+		c.Case(func(k *fw.K) { c06IndexReuse(k) })
+	}
 	// ---- chains: operands with a history ----
 	for i := 0; i < c.Pick(4000, 60000); i++ {
 		c.Case(func(k *fw.K) {
@@ -546,5 +550,53 @@ func c06Concat(k *fw.K, base []int, dim, nops int) {
 	k.Count("roundtrip_checks", 1)
 	if msg != "" {
 		k.Failf("Concat round trip dim %d of %s: %s", dim, key, msg)
+	}
+}
+
+// c06IndexReuse: the caller keeps ONE []Range (with {0,0} and omitted entries) and uses it for Slice / Patch on a
+// second tensor of different extents: each call must be answered from the index as the caller wrote it.
+func c06IndexReuse(k *fw.K) {
+	rank := 1 + k.Rng.Intn(3)
+	s1, s2 := make([]int, rank), make([]int, rank)
+	for i := range s1 {
+		s1[i], s2[i] = 2+k.Rng.Intn(3), 2+k.Rng.Intn(4)
+	}
+	n := k.Rng.Intn(rank + 1)
+	orig := make([]ref.Range, n)
+	for i := range orig {
+		if k.Rng.Intn(2) == 0 {
+			continue // {0,0}: the whole dimension
+		}
+		f := k.Rng.Intn(2)
+		orig[i] = ref.Range{From: f, To: f + 1} // valid for both tensors (sizes >= 2)
+	}
+	idx := rt.Ranges(orig) // the one slice object handed to every call
+	x1, x2 := Shuffled(k.Rng, Unique(k.Rng, s1, 0.1, 3)), Shuffled(k.Rng, Unique(k.Rng, s2, 0.1, 3))
+	k.Case = map[string]any{"index": orig, "first_tensor": s1, "second_tensor": s2}
+	k.Key("index-reuse/%s/%s/%s", shapeKey(s1), shapeKey(s2), idxKey(orig))
+	k.Count("index_reuse_cases", 1)
+	for step, x := range []*ref.T{x1, x2, x1} {
+		want, _ := x.Slice(orig)
+		var got tensor.Tensor
+		var err error
+		if p := call(func() { got, err = rt.MustLeaf(x, false).Slice(idx) }); p != nil || err != nil {
+			k.Failf("call %d: Slice(%v) on shape %v with a re-used index slice: panic=%v err=%v", step+1, orig, x.Shape, p, err)
+			return
+		}
+		if e := rt.Compare(got, want, 0, 0, nil, 0); e != nil {
+			k.Failf("call %d: Slice(%v) on shape %v with a re-used index slice: %v", step+1, orig, x.Shape, e)
+			return
+		}
+		// Patch the slice back with the same index object: a source shaped like the slice fits by construction
+		src := ref.Full(want.Shape, 99)
+		pw, _ := x.Patch(orig, src)
+		if p := call(func() { got, err = rt.MustLeaf(x, false).Patch(idx, rt.MustLeaf(src, false)) }); p != nil || err != nil {
+			k.Failf("call %d: Patch(%v) on shape %v with a re-used index slice: panic=%v err=%v", step+1, orig, x.Shape, p, err)
+			return
+		}
+		if e := rt.Compare(got, pw, 0, 0, nil, 0); e != nil {
+			k.Failf("call %d: Patch(%v) on shape %v with a re-used index slice: %v", step+1, orig, x.Shape, e)
+			return
+		}
 	}
 }
